@@ -220,6 +220,11 @@ func die(kind string) {
 	case "kill-monitor":
 		// the job monitor (mrjob, this process's parent) dies
 		syscall.Kill(os.Getppid(), syscall.SIGKILL)
+	case "errors-nojournal":
+		// the failure is recorded in _errors, but the monitor dies before
+		// the journal entry that makes mrp look at the file is written
+		os.WriteFile(filepath.Join(rec.MdPath, "_errors"), []byte("verif: stage failed; the monitor died before the journal entry"), 0o644)
+		syscall.Kill(os.Getppid(), syscall.SIGKILL)
 	}
 	time.Sleep(5 * time.Second)
 	os.Exit(3)
@@ -267,7 +272,7 @@ func prologue(md *core.Metadata, phase string) string {
 	fault := readFault(rec.Key)
 	rec.Fault = fault
 	switch fault {
-	case "exit1", "kill9", "segv", "abrt", "kill-monitor":
+	case "exit1", "kill9", "segv", "abrt", "kill-monitor", "errors-nojournal":
 		die(fault)
 	}
 	return fault
